@@ -5,7 +5,7 @@ LEVEL = "exploration"
 ENGINE = "progspace"
 TECHNIQUE = "bounded exhaustive exploration of the program-space transition system: every neutral edit of every node, both builds with the same compiler and flags; oracle: exit 0 and empty report"
 RULE = ("nodes as in C05; edges = every ABI-neutral edit of every node: change the function body, rename parameters, shift source lines, add static function and variable, add an unused type, "
-        "move the unit's definitions to the other translation unit; plus pack-level edits: reverse the order of all definitions, rotate it. Units are packed ~40 per binary pair; a failing pack is "
+        "move the unit's definitions to the other translation unit; plus pack-level edits: reverse the order of all definitions, rotate it; plus programs whose two translation units define different file-local types of the same name (reached through a pointer, a typedef, a const pointer) with the edits: swap the link order, move a function together with its struct into a unit of its own (listed last / first), add a static helper. Units are packed ~40 per binary pair; a failing pack is "
         "split and each unit judged in isolation. Non-trivial: every edge.")
 TEXT = "Every neutral edge is compiled (gcc -g, also clang -g in the thorough tier) and compared with abidiff default options; the oracle demands exit status 0 and no output at all."
 NOTE = "Same compiler and flags on both sides, as the property requires; x86-64; C."
@@ -17,11 +17,31 @@ def prepare(ctx):
     toolrun.tool("plain", "abidiff")
 
 
+# programs in which two translation units define DIFFERENT types with the same name (file-local helper structs), reached
+# through a pointer / typedef / const pointer; neutral edits re-arrange the translation units
+def _same_name_variants():
+    out = []
+    for path, pa, pb in (("pointer", "struct ctx* c", "struct ctx* c"), ("typedef", "ctx_t* c", "ctx_t* c"), ("const-pointer", "const struct ctx* c", "const struct ctx* c")):
+        td = "typedef struct ctx ctx_t;\n" if path == "typedef" else ""
+        A = "struct ctx { int fd; int mode; };\n" + td + "int reader_mode(%s) { return c != 0; }\nint reader_open(int x) { return x; }\n" % pa
+        B = "struct ctx { double ratio; long total; char tag; };\n" + td + "int writer_mode(%s) { return c != 0; }\nint writer_open(int x) { return x + 1; }\n" % pb
+        A_rest = "int reader_open(int x) { return x; }\n"
+        A_moved = "struct ctx { int fd; int mode; };\n" + td + "int reader_mode(%s) { return c != 0; }\n" % pa
+        A_static = A + "static int helper_a(int v) { return v * 2; }\nint reader_open2(void);\n"
+        base = [("reader.c", A), ("writer.c", B)]
+        out.append((path, "swap-link-order", base, [("writer.c", B), ("reader.c", A)]))
+        out.append((path, "move-function-with-its-struct-to-own-unit", base, [("reader.c", A_rest), ("writer.c", B), ("reader_mode.c", A_moved)]))
+        out.append((path, "move-function-to-own-unit-listed-first", base, [("a_reader_mode.c", A_moved), ("reader.c", A_rest), ("writer.c", B)]))
+        out.append((path, "add-static-helper", base, [("reader.c", A_static.replace("int reader_open2(void);\n", "")), ("writer.c", B)]))
+    return out
+
+
 def stages(ctx):
     specs = pc.all_specs(ctx.quick)
     edges = pc.edge_list(specs, "neutral")
     st = [("all-neutral-edges(gcc)", [{"pack": p, "cc": "gcc"} for p in pc.chunks(edges, PACK)] +
-           [{"reorder": p, "how": h, "cc": "gcc"} for p in pc.chunks(specs, PACK) for h in ("reverse", "rotate")])]
+           [{"reorder": p, "how": h, "cc": "gcc"} for p in pc.chunks(specs, PACK) for h in ("reverse", "rotate")] +
+           [{"samename": i, "cc": cc} for i in range(len(_same_name_variants())) for cc in (("gcc", "clang") if not ctx.quick else ("gcc",))])]
     if not ctx.quick:
         st.append(("all-neutral-edges(clang)", [{"pack": p, "cc": "clang"} for p in pc.chunks(edges, PACK)]))
     return st
@@ -29,6 +49,21 @@ def stages(ctx):
 
 def evaluate(ctx, e):
     fails, outs = [], {}
+    if "samename" in e:
+        from .. import cbuild
+        path, edit, u1, u2 = _same_name_variants()[e["samename"]]
+        v1 = cbuild.compile_units([(f, src, ["-g"]) for f, src in u1], link_flags=["-Wl,-soname,libio.so"], out_name="libio.so", cc=e["cc"], tag="c06s")
+        v2 = cbuild.compile_units([(f, src, ["-g"]) for f, src in u2], link_flags=["-Wl,-soname,libio.so"], out_name="libio.so", cc=e["cc"], tag="c06s")
+        n = 0
+        for a, b, d in ((v1, v2, "fwd"), (v2, v1, "bwd")):
+            rc, out, err = pc.abidiff(ctx, a, b)
+            n += 1
+            ok = rc == 0 and not out.strip()
+            outs["silent" if ok else "reported"] = outs.get("silent" if ok else "reported", 0) + 1
+            if not ok:
+                fails.append({"sig": "C06 abidiff exit%s same-named-types-in-two-units %s %s/%s" % (rc, edit, e["cc"], path),
+                              "what": "two units define different 'struct ctx' (reached through %s); the neutral edit '%s' (%s) is reported (exit %s): %s" % (path, edit, d, rc, out[:500])})
+        return {"evaluations": n, "nontrivial_count": n, "outcomes": outs, "failures": fails, "sample": {"same-named": path, "edit": edit}}
     if "reorder" in e:
         us = [(idx, pc.unit_from_spec(s).rename(str(idx))) for idx, s in enumerate(e["reorder"])]
         us2 = list(reversed(us)) if e["how"] == "reverse" else us[len(us) // 2:] + us[:len(us) // 2]
